@@ -60,7 +60,7 @@ def obligations(tier):
                          f'request 1 changes a part (fault kind {f1}); request 2 carries the previous object again', T,
                          'change, fault, revert'))
     # H5: two changing requests, the first with any fault, then a probe
-    for f1 in (range(5) if not quick else ()):
+    for f1 in range(5):
         sym = {'w1': (I, 0, 1), 'd1': (I, 0, 1), 'p1': (I, 0, 4), 'k1': (I, 1, 3),
                'w2': (I, 0, 1), 'd2': (I, 0, 1), 'p2': (I, 0, 4), 'k2': (I, 1, 3)}
         fixed = {'pre_b': True, 'q1': 5, 'j1': 1, 'f1': f1, 'g1': 'p1', 'f2': 0, 'g2': 0, 'w3': 'w2', 'd3': 'd2'}
